@@ -487,7 +487,13 @@ def names_set(which):
         # names outside the pool: two `h` commands that agree beyond what they share with the built-in `help`;
         # 3- and 4-byte characters that differ only in their last octet; a name equal to the common prefix last
         extra = [["hax", "hay"], ["hay", "hax", "a"], ["hax", "h", "hay"], ["a中", "a丮"], ["a丮", "a中", "ab"], ["b𝄞", "b𝄟"],
-                 ["abc", "abd", "ab"], ["abcab", "abcabd", "abca"], ["中", "丮"]]
+                 ["abc", "abd", "ab"], ["abcab", "abcabd", "abca"], ["中", "丮"],
+                 # names longer than one or two machine words, agreeing for 8, 16, 17 bytes; four and five matches;
+                 # long multi-byte names; names that extend the built-in `help`
+                 ["aaaaaaaaaaaaaaaab", "aaaaaaaaaaaaaaaac", "aaaaaaaaa"], ["ab-long-command-one", "ab-long-command-two"],
+                 ["aaaaaaaab", "aaaaaaaac"], ["aaaaaaab", "aaaaaaac", "aaaaaaad", "aaaaaaa"],
+                 ["éééééééééa", "ééééééééébb"], ["ba", "bab", "baba", "babab", "b"], ["bab", "baba", "ba", "babab"],
+                 ["helper-function", "help-me"], ["help-me", "hello", "helper-function", "hex"]]
         lists = lists + [l for l in extra if l not in lists]
     return lists
 
